@@ -2,6 +2,10 @@
 //!
 //! import_graph  opts file roots [flags [hist]] -> new refs of the roots ("id,gen;…"), number of new objects, then one field per new object (canon)
 //! import        opts file pages flags [hist]   -> see `import_pages`
+//! import_seq    opts file pages flags [hist]   -> the same sequence through ONE Importer, but a page whose import fails is
+//!                                                 recorded and the sequence goes on: field 0 = one letter per page of the
+//!                                                 sequence (`k` imported, `e` failed), then the fields of `import` for the
+//!                                                 pages that were imported (nothing more than "0" if none was)
 //! dump          opts file                      -> one field per object number 1..n (canon | !Kind), trailer last
 //!
 //! flags (ASCII letters): s = append the dump of the source, d = verbose clone errors,
@@ -239,7 +243,7 @@ fn import_graph(f: &[Vec<u8>]) -> R {
 ///   per page i (5 fields): media box, crop box, "trim box|rotate", serialize_ops(source page ops), serialize_ops(reloaded page ops)
 ///   then: number of objects of the new file (decimal), one field per object 1..n (canon), the new trailer (canon),
 ///   then (flag 's'): number of objects of the source, one field per source object, the source trailer
-fn import_pages_with<OC, SC, OC2, SC2>(f: &[Vec<u8>], src: FileOptions<'static, OC, SC, NoLog>, dst: FileOptions<'static, OC2, SC2, NoLog>) -> R
+fn import_pages_with<OC, SC, OC2, SC2>(f: &[Vec<u8>], src: FileOptions<'static, OC, SC, NoLog>, dst: FileOptions<'static, OC2, SC2, NoLog>, seq: bool) -> R
 where OC: Cache<Result<AnySync, Arc<PdfError>>>, SC: Cache<Result<Arc<[u8]>, Arc<PdfError>>>,
       OC2: Cache<Result<AnySync, Arc<PdfError>>>, SC2: Cache<Result<Arc<[u8]>, Arc<PdfError>>>
 {
@@ -250,19 +254,31 @@ where OC: Cache<Result<AnySync, Arc<PdfError>>>, SC: Cache<Result<Arc<[u8]>, Arc
     let mut builder = PdfBuilder::new(dst);
     let mut pages = vec![];
     let mut old_ops = vec![];
+    let mut status: Vec<u8> = vec![];
     {
         let mut imp = Importer::new(old.resolver(), &mut builder.storage);
         for n in nums_of(fld(f, 2)) {
-            let page = old.get_page(n).map_err(|e| format!("page:{}", ekind(&e)))?;
-            let ops = match page.contents.as_ref() { Some(c) => c.operations(&old.resolver()).map_err(|e| format!("ops:{}", ekind(&e)))?, None => vec![] };
-            old_ops.push(serialize_ops(&ops).map_err(|e| format!("serops:{}", ekind(&e)))?);
-            pages.push(PageBuilder::clone_page(&page, &mut imp).map_err(|e| if flags.contains(&b'd') { format!("clone:{:?}", e) } else { format!("clone:{}", ekind(&e)) })?);
+            // one page: everything that can fail for it, as a value
+            let one = (|| -> Result<(Vec<u8>, PageBuilder), String> {
+                let page = old.get_page(n).map_err(|e| format!("page:{}", ekind(&e)))?;
+                let ops = match page.contents.as_ref() { Some(c) => c.operations(&old.resolver()).map_err(|e| format!("ops:{}", ekind(&e)))?, None => vec![] };
+                let so = serialize_ops(&ops).map_err(|e| format!("serops:{}", ekind(&e)))?;
+                let pb = PageBuilder::clone_page(&page, &mut imp).map_err(|e| if flags.contains(&b'd') { format!("clone:{:?}", e) } else { format!("clone:{}", ekind(&e)) })?;
+                Ok((so, pb))
+            })();
+            match one {
+                Ok((so, pb)) => { old_ops.push(so); pages.push(pb); status.push(b'k'); }
+                Err(_) if seq => status.push(b'e'),
+                Err(e) => return Err(e),
+            }
         }
         let _ = imp.finish();
     }
     let npages = pages.len();
+    if seq && npages == 0 { return Ok(vec![status, b"0".to_vec()]); }
     let data = builder.build(CatalogBuilder::from_pages(pages)).map_err(|e| format!("build:{}", ekind(&e)))?;
-    let mut out: Vec<Vec<u8>> = vec![format!("{}", npages).into_bytes()];
+    let mut out: Vec<Vec<u8>> = if seq { vec![status] } else { vec![] };
+    out.push(format!("{}", npages).into_bytes());
     // typed view of the reloaded document
     if flags.contains(&b'r') {
         typed_view(&FileOptions::cached().load(data.clone()).map_err(|e| format!("reload:{}", ekind(&e)))?, npages, &old_ops, &mut out)?;
@@ -305,20 +321,21 @@ where OC: Cache<Result<AnySync, Arc<PdfError>>>, SC: Cache<Result<Arc<[u8]>, Arc
     Ok(())
 }
 
-fn import_pages(f: &[Vec<u8>]) -> R {
+fn import_pages(f: &[Vec<u8>], seq: bool) -> R {
     let flags = fld(f, 3);
     match (flags.contains(&b'c'), flags.contains(&b'C')) {
-        (false, false) => import_pages_with(f, FileOptions::uncached(), FileOptions::uncached()),
-        (true, false) => import_pages_with(f, FileOptions::cached(), FileOptions::uncached()),
-        (false, true) => import_pages_with(f, FileOptions::uncached(), FileOptions::cached()),
-        (true, true) => import_pages_with(f, FileOptions::cached(), FileOptions::cached()),
+        (false, false) => import_pages_with(f, FileOptions::uncached(), FileOptions::uncached(), seq),
+        (true, false) => import_pages_with(f, FileOptions::cached(), FileOptions::uncached(), seq),
+        (false, true) => import_pages_with(f, FileOptions::uncached(), FileOptions::cached(), seq),
+        (true, true) => import_pages_with(f, FileOptions::cached(), FileOptions::cached(), seq),
     }
 }
 
 pub fn dispatch(mode: &str, f: &[Vec<u8>]) -> Option<R> {
     Some(match mode {
         "import_graph" => import_graph(f),
-        "import" => import_pages(f),
+        "import" => import_pages(f, false),
+        "import_seq" => import_pages(f, true),
         "dump" => {
             let mut st = match Storage::with_cache(fld(f, 1).to_vec(), opts_of(fld(f, 0)), NoCache, NoCache, NoLog) { Ok(s) => s, Err(e) => return Some(Err(ekind(&e))) };
             let tr = match st.load_storage_and_trailer() { Ok(t) => t, Err(e) => return Some(Err(ekind(&e))) };
